@@ -65,7 +65,7 @@ Inductive c14case :=
        (ms : list (guest * nat * N)) (impl : res (list (N * guest)))
 (* jwe.encrypt_* / decrypt_* : per recipient (header object, choice index,
    sender choice index, id of the real recipient key) *)
-| CJwe (t : tblsel) (use_random : bool) (m : kfmode) (src : ksrc) (sk : option sksrc)
+| CJwe (t : tblsel) (use_random : bool) (va : bool) (m : kfmode) (src : ksrc) (sk : option sksrc)
        (rs : list (guest * nat * nat * N)) (impl : res (list (N * option N * guest)))
 (* KeySet.as_dict: (kty, kid, material id) of every exported entry *)
 | CExport (ks : list key) (expect : list (option string * option str * N))
@@ -90,16 +90,28 @@ Definition m_jws (t : tblsel) (ur kc : bool) (m : kfmode) (src : ksrc) (ms : lis
              if ur || (k_id (fst kg) =? pid) then Ok kg else Err wrong_key) ms.
 
 (* encrypt: every recipient is resolved, then the headers are checked;
-   decrypt: every recipient is resolved (first failure raises), then decrypted *)
+   decrypt: every recipient is resolved (jwe_attach: first failure raises,
+   whatever verify_all_recipients says), then the headers are checked *)
 Definition m_jwe (t : tblsel) (ur : bool) (m : kfmode) (src : ksrc) (sk : option sksrc)
            (rs : list (guest * nat * nat * N)) : res (list (key * option key * guest)) :=
-  do sel <- map_res (fun x : guest * nat * nat * N =>
-             let '(g, idx, sidx, pid) := x in
-             jwe_select (tbl_of t) (ch_idx idx) (ch_idx sidx) ur (mk_kf m src) sk g) rs;
+  do sel <- (if ur then
+               map_res (fun x : guest * nat * nat * N =>
+                          let '(g, idx, sidx, pid) := x in
+                          jwe_select (tbl_of t) (ch_idx idx) (ch_idx sidx) ur (mk_kf m src) sk g) rs
+             else jwe_attach (tbl_of t) (ch_idx 0) (ch_idx 0) (mk_kf m src) sk
+                             (map (fun x : guest * nat * nat * N => fst (fst (fst x))) rs));
   do _ <- map_res (fun r : key * option key * guest => jwe_postcheck (headers (snd r))) sel;
-  if ur || list_eqb N.eqb (map (fun r : key * option key * guest => k_id (fst (fst r))) sel)
-                          (map (fun x : guest * nat * nat * N => snd x) rs)
-  then Ok sel else Err wrong_key.
+  Ok sel.
+
+(* after the lookups: does decryption succeed?  every recipient whose looked-up
+   key is the key the token was made with yields the CEK; with
+   verify_all_recipients every recipient must, without it one suffices (the
+   others must fail with a JoseError to be skipped: compared loosely) *)
+Fixpoint match_flags (ids pids : list N) : list bool :=
+  match ids, pids with
+  | i :: r, p :: r' => (i =? p) :: match_flags r r'
+  | _, _ => []
+  end.
 
 (* errors that may follow a successful selection on the producing side
    (key material unusable for the algorithm: curve, length, key type in JWE) *)
@@ -154,11 +166,19 @@ Definition c14_check (c : c14case) : bool :=
       fin_check (fun (a : key * guest) (b : N * guest) =>
                    N.eqb (k_id (fst a)) (fst b) && guest_same (snd a) (snd b))
                 ur false (negb kc) (m_jws t ur kc m src ms) impl
-  | CJwe t ur m src sk rs impl =>
-      fin_check (fun (a : key * option key * guest) (b : N * option N * guest) =>
+  | CJwe t ur va m src sk rs impl =>
+      let same := fun (a : key * option key * guest) (b : N * option N * guest) =>
                    let '(k, s, g1) := a in let '(i, si, g2) := b in
-                   N.eqb (k_id k) i && opt_eqb N.eqb (option_map k_id s) si && guest_same g1 g2)
-                ur true false (m_jwe t ur m src sk rs) impl
+                   N.eqb (k_id k) i && opt_eqb N.eqb (option_map k_id s) si && guest_same g1 g2 in
+      match m_jwe t ur m src sk rs with
+      | Err e => fin_check same ur true false (Err e) impl
+      | Ok sel =>
+          let fl := match_flags (map (fun r : key * option key * guest => k_id (fst (fst r))) sel)
+                                (map (fun x : guest * nat * nat * N => snd x) rs) in
+          if ur || forallb (fun b => b) fl then fin_check same ur true false (Ok sel) impl
+          else if va || negb (existsb (fun b => b) fl) then fin_check same ur true false (Err wrong_key) impl
+          else fin_check same ur true false (Ok sel) impl || fin_check same ur true false (Err wrong_key) impl
+      end
   | CExport ks e =>
       list_eqb2 (fun (a : jwk_entry) (b : option string * option str * N) =>
                   let '(t, kid, i) := b in
@@ -199,7 +219,7 @@ Definition c14_show (c : c14case) : c14out :=
       OSel (match m_jws t ur kc m src ms with
             | Ok l => Ok (map (fun a : key * guest => (k_id (fst a), k_kid (fst a), None, snd a)) l)
             | Err x => Err x end)
-  | CJwe t ur m src sk rs _ =>
+  | CJwe t ur va m src sk rs _ =>
       OSel (match m_jwe t ur m src sk rs with
             | Ok l => Ok (map (fun a : key * option key * guest =>
                                  let '(k, s, g1) := a in (k_id k, k_kid k, option_map k_id s, g1)) l)
